@@ -51,6 +51,55 @@ pub fn extra_command(cmd: &str, _args: &[String]) -> Option<i32> {
             }
             Some(0)
         }
+        // writes the valid seed files of C17/C18 as a starting corpus for the libFuzzer side campaign:
+        // <dir>/<target>/<entry>-<name> with the selector byte the fuzz target expects in front
+        "dump-seeds" => {
+            let dir = std::path::PathBuf::from(_args.first().cloned().unwrap_or_else(|| "fuzz/corpus".into()));
+            let user = ["cfg", "exl", "fiin", "chardat", "gearsets", "log", "patchlist-boot", "patchlist-game"];
+            let assets = ["mdl", "mtrl", "shpk", "tex", "exh", "exd", "pbd", "cmp", "tera", "stm", "dic", "lgb", "avfx", "uld", "sgb", "scd", "hwc", "iwc", "tmb", "skp", "schd", "phyb", "pap", "sqdb"];
+            let mut n = 0;
+            let mut put = |target: &str, name: String, sel: u8, body: Vec<u8>| {
+                let d = dir.join(target);
+                let _ = std::fs::create_dir_all(&d);
+                let mut b = vec![sel];
+                b.extend_from_slice(&body);
+                let _ = std::fs::write(d.join(name.replace('/', "_")), b);
+                n += 1;
+            };
+            for s in c17::registry().seeds.iter() {
+                if let Some(i) = user.iter().position(|e| *e == s.entry) {
+                    put("user_files", format!("{}-{}", s.entry, s.name), i as u8, s.bytes().to_vec());
+                }
+                if s.entry == "zipatch" {
+                    put("archive", format!("zipatch-{}", s.name), 2, s.bytes().to_vec());
+                }
+            }
+            for s in c18::registry().seeds.iter() {
+                if s.bytes().len() > 200_000 {
+                    continue;
+                }
+                if s.entry == "exd" {
+                    if s.target == 1 {
+                        let mut b = (s.args[0].len() as u16).to_le_bytes().to_vec();
+                        b.extend_from_slice(&s.args[0]);
+                        b.extend_from_slice(&s.args[1]);
+                        put("assets", format!("exd-{}", s.name), 5, b);
+                    }
+                    continue;
+                }
+                if let Some(i) = assets.iter().position(|e| *e == s.entry) {
+                    put("assets", format!("{}-{}", s.entry, s.name), i as u8, s.bytes().to_vec());
+                }
+                if s.entry == "index" {
+                    put("archive", format!("index-{}", s.name), 0, s.bytes().to_vec());
+                }
+                if s.entry == "dat" {
+                    put("archive", format!("dat-{}", s.name), 1, s.bytes().to_vec());
+                }
+            }
+            println!("{} seed files written under {}", n, dir.display());
+            Some(0)
+        }
         _ => None,
     }
 }
